@@ -240,7 +240,7 @@ func (e *Engine) stub(fn *ssa.Function, a []Value) (Value, bool) {
 	case "bytes.NewBuffer":
 		return &Ptr{Obj: e.newObj(ropeOf(a[0]))}, true
 	case "(*bytes.Buffer).WriteRune":
-		p := a[0].(*Ptr)
+		p := bufPtr(a[0])
 		r, ok := a[1].(int64)
 		if !ok {
 			unsupported("WriteRune of a symbolic rune")
@@ -248,11 +248,11 @@ func (e *Engine) stub(fn *ssa.Function, a []Value) (Value, bool) {
 		p.Obj.Val = ropeCat(p.Obj.Val.(*Rope), ropeOf(string(rune(r))))
 		return Tuple{int64(1), Nil{}}, true
 	case "(*bytes.Buffer).Write", "(*bytes.Buffer).WriteString":
-		p := a[0].(*Ptr)
+		p := bufPtr(a[0])
 		p.Obj.Val = ropeCat(p.Obj.Val.(*Rope), ropeOf(a[1]))
 		return Tuple{int64(0), Nil{}}, true
 	case "(*bytes.Buffer).WriteByte":
-		p := a[0].(*Ptr)
+		p := bufPtr(a[0])
 		r, ok := a[1].(int64)
 		if !ok {
 			unsupported("WriteByte of a symbolic byte")
@@ -260,8 +260,8 @@ func (e *Engine) stub(fn *ssa.Function, a []Value) (Value, bool) {
 		p.Obj.Val = ropeCat(p.Obj.Val.(*Rope), ropeOf(string([]byte{byte(r)})))
 		return Nil{}, true
 	case "(*bytes.Buffer).Bytes", "(*bytes.Buffer).String":
-		p := a[0].(*Ptr)
-		return p.Obj.Val.(*Rope), true
+		p := bufPtr(a[0])
+		return ropeVal(p.Obj.Val.(*Rope)), true
 	case "encoding/json.Marshal":
 		return e.jsonMarshal(a[0]), true
 	case "encoding/json.Unmarshal":
@@ -295,6 +295,18 @@ func (e *Engine) sprintfConcreteInt(x int64) string {
 		b = append([]byte{'-'}, b...)
 	}
 	return string(b)
+}
+
+// bufPtr: a bytes.Buffer is modelled as an object holding a rope; the zero Buffer is the empty rope.
+func bufPtr(v Value) *Ptr {
+	p, ok := v.(*Ptr)
+	if !ok || len(p.Path) != 0 {
+		unsupported("bytes.Buffer embedded in another object")
+	}
+	if _, isRope := p.Obj.Val.(*Rope); !isRope {
+		p.Obj.Val = &Rope{}
+	}
+	return p
 }
 
 var fnIDs = map[*ssa.Function]int64{}
